@@ -83,12 +83,16 @@ func (s LocalStore) StoreChunk(chunk *Chunk) error {
 	if err != nil {
 		return err
 	}
+	verifYield("ls.tmp", "path", p, "name", tmp.Name())
+	defer verifYield("ls.exit", "path", p)
 	if _, err = tmp.Write(b); err != nil {
 		tmp.Close()
 		os.Remove(tmp.Name()) // clean up
 		return err
 	}
+	verifYield("ls.written", "path", p, "n", len(b))
 	tmp.Close() // Windows can't rename open files, close explicitly
+	verifYield("ls.closed", "path", p)
 	return os.Rename(tmp.Name(), p)
 }
 
